@@ -1052,3 +1052,76 @@ pub fn run_c18(toks: &[&str]) -> Lines {
     out.push(("orc", if why.is_empty() { "ok".to_string() } else { format!("FAIL {}", why.join(",")) }));
     out
 }
+
+// C18 mixtures: groups (separated by `==`) each become one shard exported under its own key
+// (`key <hex> <flags>` inside the group); all exports live in one directory that a manager opens in one
+// batch.  Queries must be answered as by a manager over the original unkeyed shards.
+pub fn run_c18m(toks: &[&str]) -> Lines {
+    let ops = split_ops(toks);
+    let mut groups: Vec<Vec<Vec<&str>>> = vec![vec![]];
+    for op in &ops {
+        if op[0] == "==" {
+            groups.push(vec![]);
+        } else {
+            groups.last_mut().unwrap().push(op.clone());
+        }
+    }
+    let dir_o = tempfile::tempdir().unwrap();
+    let dir_k = tempfile::tempdir().unwrap();
+    let mut all: Vec<MDBCASInfo> = vec![];
+    let mut nshards = 0;
+    for g in &groups {
+        let b = build(g);
+        if b.mem.is_empty() {
+            continue;
+        }
+        all.extend(b.cass.iter().cloned());
+        let (bytes, info) = serialize(&b.mem);
+        let kop = g.iter().find(|o| o[0] == "key");
+        let (key, flags): (MerkleHash, u32) = match kop {
+            Some(o) => (h32(o[1]), o[2].parse().unwrap()),
+            None => (MerkleHash::default(), 7),
+        };
+        let mut w = vec![];
+        info.export_as_keyed_shard(&mut Cursor::new(&bytes), &mut w, key, std::time::Duration::from_secs(3600), flags & 1 != 0, flags & 2 != 0, flags & 4 != 0)
+            .unwrap();
+        std::fs::write(dir_o.path().join(format!("{}.mdb", merklehash::compute_data_hash(&bytes).hex())), &bytes).unwrap();
+        std::fs::write(dir_k.path().join(format!("{}.mdb", merklehash::compute_data_hash(&w).hex())), &w).unwrap();
+        nshards += 1;
+    }
+    let mut out: Lines = vec![];
+    let mut why: Vec<String> = vec![];
+    let rt = tokio::runtime::Builder::new_multi_thread().worker_threads(2).enable_all().build().unwrap();
+    let zero = MerkleHash::default();
+    rt.block_on(async {
+        let mo = ShardFileManager::new_in_session_directory(dir_o.path()).await.unwrap();
+        mo.refresh_shard_dir().await.unwrap();
+        let mk = ShardFileManager::new_in_session_directory(dir_k.path()).await.unwrap();
+        mk.refresh_shard_dir().await.unwrap();
+        if mk.registered_shard_list().await.unwrap().len() != nshards {
+            why.push("not-all-exports-registered".into());
+        }
+        let mut nq = 0;
+        for q in &ops {
+            if q[0] != "qd" {
+                continue;
+            }
+            let qs = hashes(q[1]);
+            let ao = mo.chunk_hash_dedup_query(&qs).await.unwrap();
+            let ak = mk.chunk_hash_dedup_query(&qs).await.unwrap();
+            let no = ao.as_ref().map(|x| x.0).unwrap_or(0);
+            let nk = ak.as_ref().map(|x| x.0).unwrap_or(0);
+            out.push(("obs", format!("qd{} orig={} keyed={}", nq, no, nk)));
+            if let Err(e) = truthful(&all, &zero, &qs, &ak) {
+                why.push(format!("qd{}-keyed-untruthful:{}", nq, e));
+            }
+            let first_dups = qs.first().map(|q0| all.iter().flat_map(|c| c.chunks.iter()).filter(|c| c.chunk_hash == *q0).count()).unwrap_or(0);
+            if no != nk && first_dups <= 1 {
+                why.push(format!("qd{}-answers-differ:{}vs{}", nq, no, nk));
+            }
+            nq += 1;
+        }
+    });
+    out.push(("orc", if why.is_empty() { "ok".to_string() } else { format!("FAIL {}", why.join(",")) }));
+    out
+}
